@@ -528,7 +528,7 @@ func (a *BigInt) M__round__(digits Object) (Object, error) {
 		if negative {
 			r.Neg(r)
 		}
-		return (*BigInt)(r), nil
+		return (*BigInt)(r).MaybeInt(), nil
 	}
 	return cantConvert(digits, "int")
 }
